@@ -20,6 +20,10 @@ NOT_DECIDED = [
 ]
 
 
+# operations whose result is a value detached from the container (what follows in a receiver chain is not a container op)
+SCALAR_RESULT = {"position", "rposition", "any", "all", "contains", "len", "is_empty", "count"}
+
+
 def container_ops(ctx, rule, body, adt, field, allowed, must_have, tkey, modelled=False):
     """classify every call on <adt>.<field> inside body; with modelled=True the content effect of the method has been
     decided by the sequence algebra (seqalg), so operations outside the table are not inconclusive"""
@@ -27,7 +31,12 @@ def container_ops(ctx, rule, body, adt, field, allowed, must_have, tkey, modelle
     ctx.touch(body, calls=len(ops))
     classes = []
     for b, t, name, chain in ops:
+        detached = False
         for n in chain + [name]:
+            if detached:
+                break     # operates on an index / bool / count computed from the list, not on the list
+            if lib.tail(n, 1) in SCALAR_RESULT:
+                detached = True
             sn = mir.strip_generics(n)
             cl = T.classify(n)
             short = lib.tail(n, 2)
